@@ -23,7 +23,16 @@
     on concrete witnesses (`ba_asIs_raises`, `ba_asIs_wrong_type`, `curry_asIs_raises`) and the
     positive theorem is kept with the excluding hypotheses (`…_partial`): BA's left side is one
     object, right-curried wires have a non-empty image.
-  * tree2diagram: every CCG derivation it accepts is a well-typed closed biclosed diagram whose
+  * words and generic boxes (`Word(name, cod, dom=…, _dagger=…)` of cfg/ccg, `biclosed.Box`) with
+    an ARBITRARY domain — empty (the default), atomic, nested, several objects — and either
+    dagger flag: the image is exactly one box of the same name from the image of the domain to
+    the image of the codomain (`word_type_preserving`, `box_image`), for both variants.
+  * whole diagrams keep their words and boxes: besides cups, caps and swaps the image contains
+    exactly one box per word / generic box of the source (those inside curried diagrams
+    included), in the source's order, each over the images of its domain and codomain
+    (`biclosed2rigid_preserves_boxes`).
+  * tree2diagram(tree, dom=…): every CCG derivation it accepts is a well-typed biclosed diagram
+    whose domain is the optional `dom` for a leaf tree and empty otherwise, and whose
     translation is type-preserving — for BOTH variants (CCG categories are single objects, so
     the shapes of F10/F14 never arise).
 
@@ -32,9 +41,10 @@
 
   Nothing of the property's statement is left unproved for the model.  What the theorems do
   not reach: the Python text itself (tied by the correspondence run), `random.shuffle`
-  (an arbitrary oracle in the model), daggered biclosed boxes, names that are not identifiers.
+  (an arbitrary oracle in the model), daggered RULE boxes (daggered words and generic boxes are modelled: `Rule.dgen`), names that are not identifiers.
 -/
 import Proofs.Grammar
+import Proofs.GrammarBoxes
 
 namespace DV.C18
 open DV
@@ -121,6 +131,25 @@ theorem biclosed2rigid_type_preserving (r : Rule) (hc : r.check = true) :
     ∃ d, r.img Variant.repaired = .ok d ∧ d.WF ∧ d.dom = BTy.img r.dom ∧ d.cod = BTy.img r.cod :=
   Rule.img_has Variant.repaired r hc (Rule.okFor_repaired r)
 
+/-- Words and generic boxes with an arbitrary domain, both variants: the image of
+    `Word(name, cod, dom=dom, _dagger=dagger)` is the single box `name : F(dom) → F(cod)` (with the
+    same dagger flag) — in particular its domain is the image of the word's domain, whether that
+    is the default empty type or any nested slash type. -/
+theorem word_type_preserving (v : Variant) (name : String) (cod dom : BTy) (dagger : Bool) :
+    (mkWord name cod dom dagger).img v = .ok (Diagram.ofBox
+        { name := name, dom := BTy.img dom, cod := BTy.img cod, dagger := dagger }) ∧
+      (mkWord name cod dom dagger).dom = dom ∧ (mkWord name cod dom dagger).cod = cod := by
+  refine ⟨?_, mkWord_dom .., mkWord_cod ..⟩
+  cases dagger <;> simp [mkWord, wordDom_eq, Rule.img, Rule.check, Rule.imgCore, Box.dag]
+
+/-- The image of a generic `biclosed.Box(name, dom, cod)` is one box over the images. -/
+theorem box_image (v : Variant) (name : String) (dom cod : BTy) :
+    (Rule.gen name dom cod).img v =
+      .ok (Diagram.ofBox { name := name, dom := BTy.img dom, cod := BTy.img cod }) ∧
+    (Rule.dgen name dom cod).img v =
+      .ok (Diagram.ofBox { name := name, dom := BTy.img dom, cod := BTy.img cod, dagger := true }) := by
+  constructor <;> simp [Rule.img, Rule.check, Rule.imgCore, Box.dag]
+
 /-- The same for `BA` alone, in the terms of finding F10. -/
 theorem ba_type_preserving (l r : BTy) :
     ∃ d, (Rule.ba l r).img Variant.repaired = .ok d ∧ d.WF ∧
@@ -170,6 +199,19 @@ theorem biclosed2rigid_diagram_type_preserving (d : BD) (ht : d.Typed Variant.re
       g.cod = BTy.img (d.cod Variant.repaired) :=
   BD.img_has Variant.repaired d ht (BD.avoids_repaired d)
 
+/-- The translation keeps the words and boxes: the image's boxes other than cups, caps and swaps
+    are, in order, the images `name : F(dom) → F(cod)` of the source's words and generic boxes
+    (`BD.gens`; the contents of curried diagrams included) — whenever an image is returned, for
+    either variant; and for the repaired code one is returned for every well-typed diagram. -/
+theorem biclosed2rigid_preserves_boxes (v : Variant) (d : BD) (g : Diagram)
+    (h : d.img v = .ok g) : g.gens = d.gens :=
+  BD.img_gens v d g h
+
+theorem biclosed2rigid_preserves_boxes_total (d : BD) (ht : d.Typed Variant.repaired) :
+    ∃ g, d.img Variant.repaired = .ok g ∧ g.gens = d.gens := by
+  obtain ⟨g, hg, _⟩ := BD.img_has Variant.repaired d ht (BD.avoids_repaired d)
+  exact ⟨g, hg, BD.img_gens _ d g hg⟩
+
 /-- Code AS IT IS: the same for diagrams without a box of the shapes of F10/F14. -/
 theorem biclosed2rigid_diagram_type_preserving_partial (d : BD) (ht : d.Typed Variant.asIs)
     (ha : d.Avoids Variant.asIs) :
@@ -182,12 +224,19 @@ theorem biclosed2rigid_diagram_type_preserving_partial (d : BD) (ht : d.Typed Va
 /-- `cat2ty` returns categories only: one object, and one object on each side of every slash. -/
 theorem cat2ty_category (s : List Char) (t : BTy) (h : cat2ty s = .ok t) : t.Simple1 := cat2ty_simple h
 
-/-- Whatever `tree2diagram` returns is a well-typed closed biclosed diagram, and its
-    translation is type-preserving — for the code as it is and for the repaired code alike. -/
-theorem tree2diagram_type_preserving (v : Variant) (t : CTree) (d : BD) (h : t.toBD v = .ok d) :
-    d.Typed v ∧ d.dom = [] ∧
-      ∃ g, d.img v = .ok g ∧ g.WF ∧ g.dom = [] ∧ g.cod = BTy.img (d.cod v) :=
-  ⟨(CTree.toBD_good v t d h).typed, (CTree.toBD_good v t d h).dom, CTree.img_has v h⟩
+/-- Whatever `tree2diagram(tree, dom=dom)` returns is a well-typed biclosed diagram whose domain
+    is `dom` for a leaf tree and empty for an inner node (`CTree.domOf`), and its translation is
+    type-preserving — for every `dom`, for the code as it is and for the repaired code alike. -/
+theorem tree2diagram_type_preserving (v : Variant) (t : CTree) (dom : BTy) (d : BD)
+    (h : t.toBD v dom = .ok d) :
+    d.Typed v ∧ d.dom = t.domOf dom ∧
+      ∃ g, d.img v = .ok g ∧ g.WF ∧ g.dom = BTy.img (t.domOf dom) ∧ g.cod = BTy.img (d.cod v) :=
+  ⟨(CTree.toBD_good v t dom d h).typed, (CTree.toBD_good v t dom d h).dom, CTree.img_has v h⟩
+
+/-- With the default `dom=Ty()` the derivation is closed. -/
+theorem tree2diagram_closed (v : Variant) (t : CTree) (d : BD) (h : t.toBD v [] = .ok d) :
+    d.dom = [] := by
+  rw [(CTree.toBD_good v t [] d h).dom, CTree.domOf_nil]
 
 /-- `cat2ty` reads the fully parenthesised print of a category (depccg's format: parentheses
     around every slash category below the top, atoms free of parentheses and slashes, feature
@@ -280,9 +329,28 @@ private def tree : CTree :=
   .node "'ba'" ['S'] [.word "'Alice'" ['N', 'P'],
     .node "'fa'" ['S', '\\', 'N', 'P']
       [.word "'loves'" ['(', 'S', '\\', 'N', 'P', ')', '/', 'N', 'P'], .word "'Bob'" ['N', 'P']]]
-example : (match tree.toBD Variant.asIs with
+example : (match tree.toBD Variant.asIs [] with
     | .ok d => okWith (d.img Variant.asIs) (fun g => g.dom == [] && g.cod == [⟨"'S'", 0⟩]
         && g.boxes.length == 5)
+    | .error _ => false) = true := by decide
+
+/-- A leaf tree with the optional domain: `tree2diagram({'word': 'that', 'cat': 'S/NP'},
+    dom=(x << y) @ z)` is the word `that : (x << y) @ z → S << NP`; its image goes from the
+    3-wire image `x @ y.l @ z` of the domain to `S @ NP.l`. -/
+example : (match (CTree.word "'that'" ['S', '/', 'N', 'P']).toBD Variant.current (BTy.over x y ++ z) with
+    | .ok d => d.dom == BTy.over x y ++ z && okWith (d.img Variant.current) (fun g =>
+        g.dom == [⟨"x", 0⟩, ⟨"y", -1⟩, ⟨"z", 0⟩] && g.cod == [⟨"'S'", 0⟩, ⟨"'NP'", -1⟩] &&
+        g.boxes.length == 1)
+    | .error _ => false) = true := by decide
+/-- … an inner node ignores the argument: the derivation stays closed. -/
+example : (match tree.toBD Variant.current (BTy.over x y ++ z) with
+    | .ok d => d.dom == [] | .error _ => false) = true := by decide
+/-- A word with a nested domain inside a diagram, followed by a rule: the generic boxes of the
+    image are the two words, in order. -/
+example : (match (BD.snoc (BD.snoc (BD.snoc (.id z) 0 (mkWord "w" (BTy.over x y) z false)) 1
+      (mkWord "u" y [] true)) 0 (.fa x y)).img Variant.current with
+    | .ok g => g.gens == [{ name := "w", dom := [⟨"z", 0⟩], cod := [⟨"x", 0⟩, ⟨"y", -1⟩] },
+        { name := "u", dom := [], cod := [⟨"y", 0⟩], dagger := true }] && g.boxes.length == 3
     | .error _ => false) = true := by decide
 
 /-- `(S[dcl]\NP)/NP` is a plain category; its print parses back to `(NP >> S) << NP`. -/
